@@ -5,6 +5,11 @@ ROOT = os.path.dirname(os.path.dirname(os.path.abspath(__file__)))
 
 TECH = "deterministic simulation with fault injection: "
 CHECKS = {
+ "C07": dict(
+   text="Seeded device configurations (machine, Kempston joystick, mouse, I/O extender with a seeded claimed set, held keys, AY contents), then stratified port accesses (IN and OUT executed by the emulated CPU) at seeded beam positions; a strict partial-decode model says which single device is selected, its effect/value is asserted and every other device's canary (border, paging latch + bank marker, AY read-back, extender log) must be unchanged; unclaimed reads must return the floating bus (0xFF away from the fetch window, else a byte of the line being fetched). Sampling, not proof; the decode clause is static, only the floating-bus clause depends on simulated time.",
+   note="Multi-device addresses and addresses the strict reading leaves open are don't-care (counted); floating-bus values inside the window are checked against a position-specific set (+-4 columns), so a wrong byte passes with ~13% probability per sample; EAR asserted low with no tape.",
+   technique=TECH+"seeded configuration / port / beam-position sampling on the real machine against a strict decode model with canaries on all non-selected devices",
+   ref="5 (C07)"),
  "C04": dict(
    text="Whole-machine simulation at two levels: single bus operations on the real ZXController and stratified instructions single-stepped through the public API, each from a seeded start T (uniform and biased to the edges of the contention window / frame) with code, operands, stack, I register and port address placed in contended or uncontended memory under seeded 128K paging; observed durations are compared with RefULA applied to RefZ80's cycle script. Sampling, not proof.",
    note="Truth is RefULA (constants of the property text) + RefZ80 cycle scripts; the reference is re-synchronised from the machine's own registers and memory before every instruction (attribution: value bugs are C01's); even ports matching the paging decode are don't-care.",
